@@ -248,10 +248,23 @@ def probing_stage(chk, quick: bool) -> dict:
     real_send = requests.Session.send
     exprs, obs = [], []
 
+    def make_exc(cls):
+        """An instance of the class whatever its constructor wants (requests' JSONDecodeError takes msg, doc, pos)."""
+        if cls is KeyboardInterrupt:
+            return KeyboardInterrupt()
+        for args in (("injected on the probe request",), ("injected on the probe request", "doc", 0), ()):
+            try:
+                return cls(*args)
+            except TypeError:
+                continue
+        return None
+
+    behaviours = [b for b in behaviours if make_exc(b[1]) is not None]
+
     def run_one(kind, what, responder=None, patch_exc=None):
         def send(self, request, **kw):
             if patch_exc is not None and "X-Schemathesis-Probe" in request.headers:
-                raise patch_exc("injected on the probe request") if patch_exc is not KeyboardInterrupt else KeyboardInterrupt()
+                raise make_exc(patch_exc)
             return real_send(self, request, **kw)
 
         with mock.patch.object(requests.Session, "send", send):
